@@ -168,3 +168,12 @@ mutant("c14-hash-sort-key", "C14", OPT, "            graph.remove(list(output_tr
 mutant("c14-module-level-name-counter", "C14", "jax2onnx/converter/ir_builder.py", "class IRBuilder:", "_GLOBAL_NAME_COUNTS: dict = {}\n\n\ndef _global_unique(base: str) -> str:\n    _GLOBAL_NAME_COUNTS[base] = _GLOBAL_NAME_COUNTS.get(base, 0) + 1\n    n = _GLOBAL_NAME_COUNTS[base]\n    return ir.Value(name=f\"{base}_{n}\").name\n\n\nclass IRBuilder:", expect="_GLOBAL_NAME_COUNTS")
 benign("c14-benign-sorted-twice", "C14", PS, "            for pname in sorted(call_param_names):", "            for pname in sorted(sorted(call_param_names)):")
 benign("c14-benign-set-membership-loop", "C14", OPT, "            if t2_node not in output_transposes:\n                continue\n", "            if t2_node not in output_transposes:\n                continue\n            n_inverse = 0\n            for _t in output_transposes:\n                n_inverse += 1\n")
+
+# ----------------------------------------------------------------------------- C01
+mutant("c01-round-ignores-rounding-method", "C01", "jax2onnx/plugins/jax/lax/round.py", '        method = eqn.params.get(\n            "rounding_method", jax.lax.RoundingMethod.AWAY_FROM_ZERO\n        )', "        method = jax.lax.RoundingMethod.AWAY_FROM_ZERO", expect="round_p::rounding_method")
+mutant("c01-cumsum-ignores-reverse", "C01", "jax2onnx/plugins/jax/lax/cumsum.py", '        reverse = bool(params.get("reverse", False))', "        reverse = False", expect="cumsum_p::reverse")
+mutant("c01-finalize-made-conditional", "C01", "jax2onnx/converter/lowering_dispatch.py", "        finalize_eqn_lowering_outputs(\n            ctx,\n            eqn,\n            lowering_result,", "        if lowering_result is not None:\n          finalize_eqn_lowering_outputs(\n            ctx,\n            eqn,\n            lowering_result,", expect="finalize_eqn_lowering_outputs")
+mutant("c01-input-assertion-removed", "C01", "jax2onnx/converter/lowering_dispatch.py", "        assert_eqn_inputs_bound(\n            ctx,\n            eqn,\n            primitive_name=primitive_name,\n            eqn_index=eqn_index,\n        )\n", "", expect="assert_eqn_inputs_bound")
+mutant("c01-bound-key-dropped-by-lower", "C01", "jax2onnx/plugins/jax/numpy/transpose.py", "return cls._PRIM.bind(arr, permutation=axes_tuple)", "return cls._PRIM.bind(arr, permutation=axes_tuple, reverse_axes=False)", expect="reverse_axes")
+benign("c01-benign-param-via-subscript", "C01", "jax2onnx/plugins/jax/lax/cumsum.py", '        reverse = bool(params.get("reverse", False))', '        reverse = bool(params["reverse"]) if "reverse" in params else False')
+mutant("c01-conv-batch-groups-ignored", "C01", "jax2onnx/plugins/jax/lax/conv.py", '        batch_groups = int(params.get("batch_group_count", 1) or 1)\n', "        batch_groups = 1\n", expect="batch_group_count")
